@@ -5,13 +5,15 @@ tie-heavy inputs that arrive in three orders (targets first, decoys first, inter
 
 Compared exactly with the model, in addition to C02's three returned lists: the PASS ORDER (the
 order in which the groups compete, observed by wrapping `_is_protein_seen` on the strategy object)
-and the number and argument lengths of the `np.random.shuffle` calls (exactly two per call: over all
-groups with evidence, over the survivors).
+the number and argument lengths of the `np.random.shuffle` calls (the model: exactly two per call, over all
+groups with evidence and over the survivors), and `tie_mechanism` (`P._mechanism`: tied groups compete / are ranked
+in the order the first / second recorded shuffle left them in).  These describe the MECHANISM of the model; the property
+text fixes only the distribution of the tie order, so a tool that draws it another way (random sort keys, `permutation`,
+`default_rng`) breaks the correspondence (VIOLATION … no-failing-input-found) but is not handed a failing input.
 
-Oracle (on the recorded data): two shuffles of the right lengths, each BEFORE its sort: the pass
-order is non-increasing in (score, not placeholder) and groups of equal (score, placeholder) compete
-in the order the first recorded shuffle left them in; the ranking is non-increasing in score and
-equally scoring survivors are ranked in the order the second recorded shuffle left them in.
+Oracle (on the recorded data of one draw): the pass order is non-increasing in (score, not placeholder), the groups that
+compete are the groups with evidence, the returned ranking is non-increasing in score.  That the order inside a tie is
+drawn without bias is judged over many seeds (below).
 
 `extra` stage (only ever to EXHIBIT bias, never to pass a check): fixed tied inputs under 200 numpy
 seeds in the three arrival orders; a relative order of two tied groups (or a winner of a tied
@@ -29,18 +31,23 @@ table are not the suffix minima of (decoys+1)/(targets+1) counted along the RETU
 counted in the order they were drawn, not in another one).
 
 WRITTEN-TABLE exhibit (same stage; cases of kind "written", replayable): what a user of the command line sees is the file
-`writers.finalize_output` writes, which the in-process API never touches.  The real `main(argv)` (in process; numpy is
-seeded by the tool itself, always with 1, so the draws are varied through the input: 64 random row orders of the evidence
-file + targets first / decoys first / interleaved) writes the table of a method for an input with a block of exactly
-equally scoring targets and decoys; the WRITTEN file is read back.  Two families: methods that read the proteins from the
-evidence file (no FASTA; Percolator and MaxQuant input; identifiers `sp|…` / `REV__sp|…` and identifiers that sort the
-other way round) and remapping methods through --fasta (the default method among them; target/decoy twins compete).
-Fails if, over the random row orders, the number of runs in which the tie block of the written table starts with a target
-leaves the Hoeffding band around its expectation Σ t/(t+d) (probability < 1e-9 under an exchangeable order), if the order
-of the block is a function of its identifiers (every set of tied identifiers that occurs twice is always written in the
-same order), if fewer than two different block orders occur, or — for methods without a rescue step — if the written
-q-values are not the suffix minima of (decoys+1)/(targets+1) counted along the WRITTEN rows.  Thorough tier: also real
-`python -m picked_group_fdr` subprocesses, whose files must equal the ones main(argv) wrote in process.
+`writers.finalize_output` writes, which the in-process API never touches.  The real `main(argv)` (in process) writes the
+table of a method for an input with a block of exactly equally scoring targets and decoys; the WRITTEN file is read back.
+The draws are varied through the RUN'S SEED, as the property states them ("drawn uniformly at random under the run's seed
+instead of following input order"): the tool seeds numpy itself (`np.random.seed(1)`, once per run), and for the duration
+of one main(argv) the exhibit replaces the value of that first `np.random.seed` call by its own seed (100 seeds); the
+evidence file is held FIXED over the seeds, in each of the three arrival orders (targets first / decoys first /
+interleaved).  For a fixed seed nothing is demanded of how the written order depends on the row order of the file.
+Two families: methods that read the proteins from the evidence file (no FASTA; Percolator and MaxQuant input; identifiers
+`sp|…` / `REV__sp|…` and identifiers that sort the other way round) and remapping methods through --fasta (the default
+method among them; target/decoy twins compete).  Fails if, over the seeds of one arrival order, the tie block of the
+written table is always written in the same order; if the number of runs in which it starts with a target leaves the
+Hoeffding band around its expectation Σ t/(t+d) (probability < 1e-9 under an exchangeable order; per arrival order and
+pooled over the three); or — for methods without a rescue step — if the written q-values are not the suffix minima of
+(decoys+1)/(targets+1) counted along the WRITTEN rows.  A tool that never calls `np.random.seed` cannot be seeded this way:
+its runs are not judged on the first two clauses and the fact is reported as a broken correspondence (the model says: one
+seed call per run), not as a failing input.  Thorough tier: also real `python -m picked_group_fdr` subprocesses, whose
+files must equal the ones main(argv) wrote in process under the tool's own seed.
 """
 import math
 import os
@@ -223,7 +230,7 @@ def judge_e2e(case, out):
 # --------------------------------------------------------------------------------------------------
 # the table the command line WRITES (cases of kind "written")
 # --------------------------------------------------------------------------------------------------
-W_RANDOM = 100         # random row orders per (method, input); + the three fixed arrangements
+W_SEEDS = 100          # numpy seeds per (method, input, arrival order); the input file is held FIXED over the seeds
 W_ALPHA = 1e-9         # bound on the probability that the band is left under an exchangeable order (Hoeffding)
 TIE_PEP = 0.01
 
@@ -272,17 +279,18 @@ def w_fasta_input(seed):
     return db, t, d, o
 
 
-def w_rows(case, k):
-    """the PSM rows of run k of a "written" case, in the order in which the file lists them"""
+def w_seeds(case):
+    return int(case.get("seeds", W_SEEDS))
+
+
+def w_rows(case, a):
+    """the PSM rows of a "written" case in arrival order a (targets first / decoys first / interleaved), in the order in
+    which the file lists them; the SAME file for every seed"""
     if case["family"] == "fasta":
         _, t, d, o = w_fasta_input(case["input"])
     else:
         t, d, o = w_file_input(case["input"])
-    if k < 3:
-        rows = o[:1] + arrange(t, d, ARRIVALS[k]) + o[1:]
-    else:
-        rows = t + d + o
-        random.Random("written:%d:%d" % (case["seed"], k)).shuffle(rows)
+    rows = o[:1] + arrange(t, d, ARRIVALS[a]) + o[1:]
     return [{"peptide": p, "proteins": [prot], "pep": pep, "experiment": "exp1", "charge": 2, "intensity": 1000000, "fraction": 1}
             for p, pep, prot in rows]
 
@@ -311,28 +319,51 @@ def w_read(path):
 
 
 def run_written(case):
-    """the real main(argv) in process for every row order of the case; the WRITTEN tables, read back"""
+    """the real main(argv) in process, for each of the three arrival orders of the case's input under case["seeds"]
+    different seeds; the WRITTEN tables, read back.  The tool seeds numpy itself (`np.random.seed(1)` once per run); "the
+    run's seed" is varied by replacing, for the duration of one main(argv), the value of the FIRST `np.random.seed` call
+    of the run by the seed of the exhibit (later calls, if a tool makes any, pass unchanged).  A run that never calls
+    `np.random.seed` cannot be given a seed this way: recorded ("seed_calls" 0) and not judged."""
     import logging
 
+    import numpy as np
     from picked_group_fdr import picked_group_fdr as pgf
 
     d = tempfile.mkdtemp(prefix="c14w_")
     prev = logging.root.manager.disable
     logging.disable(logging.CRITICAL)
     runs, sub = [], []
+    orig_seed = np.random.seed
+    state = {"seed": None, "calls": 0}
+
+    def seed_wrapper(*a, **k):
+        state["calls"] += 1
+        if state["calls"] == 1 and state["seed"] is not None:
+            return orig_seed(state["seed"])
+        return orig_seed(*a, **k)
+
     try:
-        for k in range(case["runs"]):
-            out = os.path.join(d, "out_%d.txt" % k)
-            argv = w_argv(case, d, k, out)
-            pgf.main(argv)
-            runs.append(w_read(out))
-            if k < case.get("subprocesses", 0):  # the same command line as a real process
-                out2 = os.path.join(d, "sub_%d.txt" % k)
-                p = subprocess.run([lib.PY, "-m", "picked_group_fdr"] + w_argv(case, d, k, out2), capture_output=True, text=True,
-                                   env=lib.impl_env({"PYTHONHASHSEED": str(k)}), timeout=600)
-                same = p.returncode == 0 and open(out2, "rb").read() == open(out, "rb").read()
-                sub.append({"rc": p.returncode, "same_bytes": same, "stderr": p.stderr[-300:] if p.returncode else ""})
+        for a in range(len(ARRIVALS)):
+            for k in range(w_seeds(case)):
+                out = os.path.join(d, "out_%d_%d.txt" % (a, k))
+                argv = w_argv(case, d, a, out)
+                state["seed"], state["calls"] = (int(case["seed"]) + k) % 2**32, 0
+                np.random.seed = seed_wrapper
+                try:
+                    pgf.main(argv)
+                finally:
+                    np.random.seed = orig_seed
+                runs.append({"arrival": a, "seed": state["seed"], "seed_calls": state["calls"], "rows": w_read(out)})
+        for a in range(min(case.get("subprocesses", 0), len(ARRIVALS))):  # the same command line as a real process (seed: the tool's own)
+            out = os.path.join(d, "own_%d.txt" % a)
+            pgf.main(w_argv(case, d, a, out))
+            out2 = os.path.join(d, "sub_%d.txt" % a)
+            p = subprocess.run([lib.PY, "-m", "picked_group_fdr"] + w_argv(case, d, a, out2), capture_output=True, text=True,
+                               env=lib.impl_env({"PYTHONHASHSEED": str(a)}), timeout=600)
+            same = p.returncode == 0 and open(out2, "rb").read() == open(out, "rb").read()
+            sub.append({"rc": p.returncode, "same_bytes": same, "stderr": p.stderr[-300:] if p.returncode else ""})
     finally:
+        np.random.seed = orig_seed
         logging.disable(prev)
         shutil.rmtree(d, ignore_errors=True)
     return {"written": {"runs": runs, "subprocess": sub}}
@@ -351,53 +382,66 @@ def w_block(rows):
     return best or []
 
 
+def w_seed_observed(out):
+    """None, or why the exhibit could not vary the seed of the runs (correspondence side: the model says the run seeds
+    numpy's global generator exactly once, Model/C07Stream; nothing in the property text demands `np.random.seed`)"""
+    calls = sorted({r["seed_calls"] for r in out["written"]["runs"]})
+    if calls != [1]:
+        return "np.random.seed was called %s times during one main(argv) (the model: exactly once per run)" % "/".join(map(str, calls))
+    return None
+
+
 def judge_written(case, out):
-    """the tie statement on the WRITTEN tables; None = nothing exhibited"""
+    """the tie statement on the WRITTEN tables, over SEEDS with the input file held fixed; None = nothing exhibited"""
     w = out["written"]
     where = "table written by the command line (main(argv), --methods %s, %s input, %s): " % (
         case["method"], case["evidence"], "maps from --fasta" if case["family"] == "fasta" else "proteins from the evidence file")
     for k, s_ in enumerate(w["subprocess"]):
         if s_["rc"] != 0 or not s_["same_bytes"]:
-            return where + "`python -m picked_group_fdr` as a real process (row order %d) %s" % (
-                k, "exited with %d: %s" % (s_["rc"], s_["stderr"]) if s_["rc"] else "wrote other bytes than main(argv) in process")
+            return where + "`python -m picked_group_fdr` as a real process (arrival %s) %s" % (
+                ARRIVALS[k], "exited with %d: %s" % (s_["rc"], s_["stderr"]) if s_["rc"] else "wrote other bytes than main(argv) in process")
     runs = w["runs"]
-    for k, rows in enumerate(runs):
-        sc = [r[2] for r in rows]
+    for r in runs:
+        rows = r["rows"]
+        at = "arrival %s, seed %d" % (ARRIVALS[r["arrival"]], r["seed"])
+        sc = [x[2] for x in rows]
         if any(a < b for a, b in zip(sc, sc[1:])):
-            return where + "row order %d: the written scores are not non-increasing" % k
-        if not case["rescue"] and all(";" not in r[0] for r in rows):
-            want = expected_qvalues([row_is_decoy(r[0]) for r in rows])
-            got = [r[1] for r in rows]
+            return where + "%s: the written scores are not non-increasing" % at
+        if not case["rescue"] and all(";" not in x[0] for x in rows):
+            want = expected_qvalues([row_is_decoy(x[0]) for x in rows])
+            got = [x[1] for x in rows]
             if got != want:
-                return where + ("row order %d: the written ranking %r carries q-values %r, but the estimate (decoys+1)/(targets+1) with "
+                return where + ("%s: the written ranking %r carries q-values %r, but the estimate (decoys+1)/(targets+1) with "
                                 "suffix minima counted along the WRITTEN rows is %r (the file must list equal scores in the order in which "
-                                "they were counted)" % (k, [r[0] for r in rows], got, want))
-    blocks = [w_block(rows) for rows in runs]
-    rnd = [b for b in blocks[3:] if b]
-    n = len(rnd)
-    if n >= 16:
-        first_t = sum(1 for b in rnd if not b[0][1])
-        expect = sum(sum(1 for x in b if not x[1]) / len(b) for b in rnd)
-        if abs(first_t - expect) > w_band(n):
-            return where + ("over %d random row orders of the evidence file the block of equally scoring groups starts with a target in %d "
-                            "written tables (expected %.1f +- %.1f if the order inside the block is drawn at random; probability < %g): "
-                            "e.g. %r" % (n, first_t, expect, w_band(n), W_ALPHA, [x[0] for x in rnd[0]]))
-    allb = [b for b in blocks if len(b) >= 2]
-    if len(allb) >= 8:
-        orders = {tuple(x[0] for x in b) for b in allb}
+                                "they were counted)" % (at, [x[0] for x in rows], got, want))
+    pooled = []
+    for a, arrival in enumerate(ARRIVALS):
+        # a run whose seed the exhibit could not set (no np.random.seed call) is not a draw under the exhibit's seed
+        blocks = [w_block(r["rows"]) for r in runs if r["arrival"] == a and r["seed_calls"] >= 1]
+        blocks = [b for b in blocks if len(b) >= 2]
+        pooled += blocks
+        why = w_judge_blocks(blocks, "the evidence file held fixed (%s)" % arrival.replace("_", " "))
+        if why:
+            return where + why
+    why = w_judge_blocks(pooled, "the three arrival orders of the evidence file", band_only=True)
+    return where + why if why else None
+
+
+def w_judge_blocks(blocks, what, band_only=False):
+    n = len(blocks)
+    if n < 16:
+        return None
+    if not band_only:
+        orders = {tuple(x[0] for x in b) for b in blocks}
         if len(orders) < 2:
-            return where + "%d runs with different row orders: the tie block is always written in the same order %r" % (len(allb), sorted(orders)[0])
-        by_set = {}
-        for b in allb:
-            by_set.setdefault(frozenset(x[0] for x in b), set()).add(tuple(x[0] for x in b))
-        cnt = {}
-        for b in allb:
-            cnt[frozenset(x[0] for x in b)] = cnt.get(frozenset(x[0] for x in b), 0) + 1
-        rep_runs = sum(c for s_, c in cnt.items() if c >= 2 and len(s_) >= 3)
-        if rep_runs >= 10 and all(len(by_set[s_]) == 1 for s_, c in cnt.items() if c >= 2 and len(s_) >= 3):
-            ex = next(sorted(by_set[s_])[0] for s_, c in cnt.items() if c >= 2 and len(s_) >= 3)
-            return where + ("the order of the tie block is a function of its identifiers: every set of tied groups that occurs in several "
-                            "runs (%d runs) is always written in one order, e.g. %r" % (rep_runs, ex))
+            return "%d runs under %d different seeds, %s: the block of equally scoring groups is always written in the same order %r" % (
+                n, n, what, sorted(orders)[0])
+    first_t = sum(1 for b in blocks if not b[0][1])
+    expect = sum(sum(1 for x in b if not x[1]) / len(b) for b in blocks)
+    if abs(first_t - expect) > w_band(n):
+        return ("over %d runs under different seeds, %s, the block of equally scoring groups starts with a target in %d written tables "
+                "(expected %.1f +- %.1f if the order inside the block is drawn at random under the run's seed; probability < %g): e.g. %r"
+                % (n, what, first_t, expect, w_band(n), W_ALPHA, [x[0] for x in blocks[0]]))
     return None
 
 
@@ -547,7 +591,7 @@ class P(P02):
                 continue
             ev = "perc" if "Perc" in st else "mq"
             base = {"kind": "written", "method": m, "evidence": ev, "rescue": "rescued" in str(d.get("grouping")),
-                    "picked": d.get("pickedStrategy"), "runs": 3 + W_RANDOM, "subprocesses": 0}
+                    "picked": d.get("pickedStrategy"), "seeds": W_SEEDS, "subprocesses": 0}
             if not needs_map:
                 for k in (0, 1):
                     out.append(dict(base, family="file", input=k, seed=1000 * (len(out) + 1) + 7 * seed))
@@ -592,6 +636,7 @@ class P(P02):
         v["shuffle_lens"] = [
             [len(po), 0 if "err" in r else len(r["groups"])] for po, r in zip(resp["pass_orders"], resp["results"])
         ]
+        v["tie_mechanism"] = [None for _ in resp["results"]]  # what the MODEL says: two shuffles, ties keep their order (see _mechanism)
         return v
 
     def impl_view(self, case, impl_out):
@@ -603,60 +648,86 @@ class P(P02):
             for call, rec in zip(case["calls"], impl_out["_rec"])
         ]
         v["shuffle_lens"] = [[s["n"] for s in rec["shuffles"]] for rec in impl_out["_rec"]]
+        v["tie_mechanism"] = [self._mechanism(call, rec, res) for call, rec, res in zip(case["calls"], impl_out["_rec"], impl_out["results"])]
         return v
 
     # -- oracle ------------------------------------------------------------------------------------
     @staticmethod
+    def _mechanism(call, rec, res):
+        """None, or how the recorded call departs from the MECHANISM the model describes (Model/C02: exactly two
+        `np.random.shuffle` calls, over the groups with evidence and over the survivors, each before a stable sort, so
+        that tied groups stay in the order the shuffle left them in).  The property text fixes the DISTRIBUTION of the tie
+        order (uniform under the run's seed), not the mechanism: a tool drawing uniform random keys, `permutation`, or a
+        `default_rng` satisfies the text.  This is therefore an observation of the correspondence side (impl_view
+        "tie_mechanism"; the model says None) and never a failing input."""
+        groups, infos = call["groups"], call["infos"]
+        try:
+            scores = [unrat(s) for s in rec["scores"]]
+            obs = [all_contain(g, "OBSOLETE__") for g in groups]
+            with_ev = [i for i in range(len(groups)) if infos[i]]
+            sh = rec["shuffles"]
+            n_out = 0 if "err" in res else len(res["groups"])
+            if len(sh) != 2:
+                return "np.random.shuffle was called %d times in do_competition (the model: twice, before each sort)" % len(sh)
+            if sh[0]["n"] != len(with_ev):
+                return "first shuffle over %d elements, but %d groups have evidence" % (sh[0]["n"], len(with_ev))
+            if sh[1]["n"] != n_out:
+                return "second shuffle over %d elements, but %d groups survive" % (sh[1]["n"], n_out)
+            after1 = [sh[0]["before"][i] for i in sh[0]["perm"]]
+            after2 = [sh[1]["before"][i] for i in sh[1]["perm"]]
+            po, out = rec["pass"], rec["out_idx"]
+            if None in after1 or None in after2 or None in po or None in out:
+                return None  # positions cannot be observed from outside
+            if sorted(after1) != sorted(with_ev):
+                return "the first shuffle was not applied to the groups with evidence"
+            if sorted(after2) != sorted(out):
+                return "the second shuffle was not applied to the survivors"
+            if len(scores) != len(groups):
+                return None
+            k1 = lambda i: (scores[i], not obs[i])
+            pos1 = {g: k for k, g in enumerate(after1)}
+            for a in range(len(po)):
+                for b in range(a + 1, len(po)):
+                    x, y = po[a], po[b]
+                    if x in pos1 and y in pos1 and k1(x) == k1(y) and pos1[x] > pos1[y]:
+                        return "tied groups %r and %r compete in an order that is not the order the first shuffle gave them" % (groups[x], groups[y])
+            pos2 = {g: k for k, g in enumerate(after2)}
+            for a in range(len(out)):
+                for b in range(a + 1, len(out)):
+                    x, y = out[a], out[b]
+                    if scores[x] == scores[y] and pos2[x] > pos2[y]:
+                        return "equally scoring survivors %r and %r are ranked in an order that is not the order the second shuffle gave them" % (groups[x], groups[y])
+        except (KeyError, IndexError, TypeError) as e:
+            return "not observed (%s)" % type(e).__name__
+        return None
+
+    @staticmethod
     def _check_call(call, rec, res):
+        """what the property text fixes on ONE draw: equal scores are the only freedom, i.e. the groups compete and are
+        ranked by non-increasing key.  How ties are drawn (number of shuffle calls, their order) is the model's business
+        (`_mechanism`, correspondence side); that they are drawn without bias is judged over many seeds (extra stage)."""
         groups, infos = call["groups"], call["infos"]
         scores = [unrat(s) for s in rec["scores"]]
         obs = [all_contain(g, "OBSOLETE__") for g in groups]
         with_ev = [i for i in range(len(groups)) if infos[i]]
-        sh = rec["shuffles"]
-        n_out = 0 if "err" in res else len(res["groups"])
-        if len(sh) != 2:
-            return "np.random.shuffle was called %d times in do_competition (exactly two are needed: before each sort)" % len(sh)
-        if sh[0]["n"] != len(with_ev):
-            return "first shuffle over %d elements, but %d groups have evidence" % (sh[0]["n"], len(with_ev))
-        if sh[1]["n"] != n_out:
-            return "second shuffle over %d elements, but %d groups survive" % (sh[1]["n"], n_out)
-        after1 = [sh[0]["before"][i] for i in sh[0]["perm"]]
-        after2 = [sh[1]["before"][i] for i in sh[1]["perm"]]
+        if "err" not in res:  # the returned ranking, on the returned scores themselves
+            rs = [unrat(x) for x in res["scores"]]
+            if any(a < b for a, b in zip(rs, rs[1:])):
+                return "ranking is not by non-increasing score"
         po = rec["pass"]
-        if None in after1 or None in after2 or None in po or None in rec["out_idx"]:
-            # the code handed copies of groups with ambiguous content around: positions cannot be observed from
-            # outside; the exact comparison of pass order and ranking with the model (by content) still applies
+        if None in po or len(scores) != len(groups):
+            # the code handed copies of groups with ambiguous content around, or did not score every group once in input
+            # order: positions cannot be observed from outside; the exact comparison of pass order and ranking with the
+            # model (by content) still applies
             return None
-        if sorted(after1) != sorted(with_ev):
-            return "the first shuffle was not applied to the groups with evidence"
         if sorted(po) != sorted(with_ev):
             return "the groups that compete (%r) are not the groups with evidence (%r)" % (po, with_ev)
         k1 = lambda i: (scores[i], not obs[i])
-        pos1 = {g: k for k, g in enumerate(after1)}
         for a in range(len(po)):
             for b in range(a + 1, len(po)):
                 x, y = po[a], po[b]
                 if k1(x) < k1(y):
                     return "pass order is not by non-increasing (score, regular-before-placeholder): %r before %r" % (groups[x], groups[y])
-                if k1(x) == k1(y) and pos1[x] > pos1[y]:
-                    return (
-                        "tied groups %r and %r compete in an order that is not the order the first shuffle gave them "
-                        "(the shuffle must precede a stable sort on (score, placeholder) only)" % (groups[x], groups[y])
-                    )
-        out = rec["out_idx"]
-        if sorted(after2) != sorted(out):
-            return "the second shuffle was not applied to the survivors"
-        pos2 = {g: k for k, g in enumerate(after2)}
-        for a in range(len(out)):
-            for b in range(a + 1, len(out)):
-                x, y = out[a], out[b]
-                if scores[x] < scores[y]:
-                    return "ranking is not by non-increasing score"
-                if scores[x] == scores[y] and pos2[x] > pos2[y]:
-                    return (
-                        "equally scoring survivors %r and %r are ranked in an order that is not the order the second shuffle gave "
-                        "them (the shuffle must precede a stable sort on the score only)" % (groups[x], groups[y])
-                    )
         return None
 
     def oracle(self, case, impl_out):
@@ -679,7 +750,7 @@ class P(P02):
     # -- bookkeeping -----------------------------------------------------------------------------------
     def nontrivial(self, case, impl_out):
         if case.get("kind") == "written":
-            return isinstance(impl_out, dict) and "written" in impl_out and len({tuple(r[0] for r in rows) for rows in impl_out["written"]["runs"]}) > 1
+            return isinstance(impl_out, dict) and "written" in impl_out and len({tuple(x[0] for x in r["rows"]) for r in impl_out["written"]["runs"]}) > 1
         if case.get("kind") == "e2e":
             return isinstance(impl_out, dict) and "e2e" in impl_out and impl_out["e2e"]["distinct_rankings"] > 1
         return self._stats(case, impl_out)["tie"]
@@ -799,8 +870,9 @@ class P(P02):
                     seen_fail.add(k[1])
         info["end_to_end"] = e2e
         # ---- the same question asked of the table the command line WRITES ----
-        wr = {"inputs": 0, "tables": 0, "subprocess_runs": 0, "methods": [], "min_distinct_block_orders": None,
-              "target_first_fraction_min_max": None, "qvalue_tables_checked": 0, "band": round(w_band(W_RANDOM), 1), "alpha": W_ALPHA}
+        wr = {"inputs": 0, "tables": 0, "subprocess_runs": 0, "methods": [], "min_distinct_block_orders_per_arrival": None,
+              "target_first_fraction_min_max": None, "qvalue_tables_checked": 0, "seeds_per_arrival": W_SEEDS,
+              "band": round(w_band(W_SEEDS), 1), "band_pooled": round(w_band(3 * W_SEEDS), 1), "alpha": W_ALPHA}
         if not ctx.get("replay"):
             fr = []
             for case in self.written_cases(ctx.get("tier", "quick"), int(ctx.get("seed", 0) or 0)):
@@ -815,18 +887,27 @@ class P(P02):
                 evals += len(runs)
                 if case["method"] not in wr["methods"]:
                     wr["methods"].append(case["method"])
-                blocks = [w_block(rows) for rows in runs]
-                orders = {tuple(x[0] for x in b) for b in blocks if b}
-                wr["min_distinct_block_orders"] = len(orders) if wr["min_distinct_block_orders"] is None else min(len(orders), wr["min_distinct_block_orders"])
-                rnd = [b for b in blocks[3:] if b]
-                if rnd:
-                    fr.append(sum(1 for b in rnd if not b[0][1]) / len(rnd))
+                n_orders = []
+                for a in range(len(ARRIVALS)):
+                    blocks = [b for b in (w_block(r["rows"]) for r in runs if r["arrival"] == a) if b]
+                    n_orders.append(len({tuple(x[0] for x in b) for b in blocks}))
+                    if blocks:
+                        fr.append(sum(1 for b in blocks if not b[0][1]) / len(blocks))
+                m = min(n_orders)
+                wr["min_distinct_block_orders_per_arrival"] = m if wr["min_distinct_block_orders_per_arrival"] is None else min(m, wr["min_distinct_block_orders_per_arrival"])
                 if not case["rescue"]:
-                    wr["qvalue_tables_checked"] += sum(1 for rows in runs if all(";" not in r[0] for r in rows))
-                distinct_nontrivial += 1 if len(orders) > 1 else 0
+                    wr["qvalue_tables_checked"] += sum(1 for r in runs if all(";" not in x[0] for x in r["rows"]))
+                distinct_nontrivial += 1 if m > 1 else 0
                 why = self.oracle(case, out)
                 if why:
                     failures.append({"case": case, "why": why, "impl": out if len(failures) < 2 else None, "kind": "written"})
+                else:
+                    unseeded = w_seed_observed(out)
+                    if unseeded:
+                        # not demanded by the property text: a departure from what the model says (one np.random.seed per
+                        # run); the exhibit could not vary the seed -> broken correspondence, never a failing input
+                        failures.append({"case": case, "why": None, "impl": {"seed_calls": sorted({r["seed_calls"] for r in runs})},
+                                         "disagree": {"impl": unseeded, "model": "the run seeds numpy's global generator once (np.random.seed in run_picked_group_fdr; Model/C07Stream.lean)"}})
             if fr:
                 wr["target_first_fraction_min_max"] = [round(min(fr), 3), round(max(fr), 3)]
         info["written_tables"] = wr
